@@ -250,6 +250,9 @@ def run(ctx):
 
     items = []   # (conf, nw, res, cls)
     for t, r in zip(traces, tres):
+        if r.get("skipped"):
+            ctx.count("skipped_after_nontermination")
+            continue
         items.append((t["conf"], t["nw"], r, t["cls"]))
     complete = True
     for e, r in zip(explores, eres):
